@@ -1288,7 +1288,7 @@ def run_script(setup, log, final, deco, label=''):
                   f'the response it has to await (log position '
                   f'{obs["early"][0]})'))
     if obs.get('leftover') and not aborted and \
-            obs.get('ended') == 'script done':
+            obs.get('ended') in ('script done', 'mismatch'):
         V.append(('NoDesync',
                   f'the real {real_role} sent {obs["leftover"]} bytes that '
                   f'answer nothing'))
